@@ -53,6 +53,29 @@ def _serve(path):
     import sqlfluff.cli.commands  # noqa: F401
     import sqlfluff.api  # noqa: F401
 
+    # Pre-import (import only, nothing is called) the modules every child would import lazily:
+    # fresh children fault pages in very slowly when 16 run at once in this VM, and module import
+    # is most of a short child's life. The process state stays "imported, nothing executed".
+    import pkgutil
+
+    import sqlfluff.rules
+
+    for m in pkgutil.walk_packages(sqlfluff.rules.__path__, "sqlfluff.rules."):
+        try:
+            importlib.import_module(m.name)
+        except Exception:
+            pass
+    for d in ("ansi", "tsql", "postgres"):
+        try:
+            importlib.import_module("sqlfluff.dialects.dialect_" + d)
+        except Exception:
+            pass
+    for m in ("sqlfluff.core.templaters.jinja", "sqlfluff.core.templaters.python", "sqlfluff.core.templaters.placeholder", "sqlfluff.core.linter.runner", "sqlfluff.utils.reflow", "jinja2.sandbox", "jinja2.ext", "yaml", "chardet", "pathspec"):
+        try:
+            importlib.import_module(m)
+        except Exception:
+            pass
+
     signal.signal(signal.SIGCHLD, signal.SIG_IGN)
     srv = socket.socket(socket.AF_UNIX, socket.SOCK_STREAM)
     srv.bind(path)
@@ -79,11 +102,17 @@ def _serve(path):
         conn.close()
 
 
+_OWN = {}
+
+
 def start_zygote():
-    """Call from prepare() in the main process."""
-    if os.environ.get(_ENV) and os.path.exists(os.environ[_ENV]):
+    """Start a zygote owned by this process (call from a property's setup(), i.e. once per
+    worker before it has executed any case, or from prepare() in the main process)."""
+    if _OWN.get("pid") == os.getpid() and os.path.exists(_OWN["path"]):
         return
-    path = os.path.join(scratch_root(), "zygote.sock")
+    root = os.path.join(os.path.dirname(os.path.dirname(os.path.abspath(__file__))), ".scratch", os.environ.get("VF_MAIN_PID", str(os.getpid())))
+    os.makedirs(root, exist_ok=True)
+    path = os.path.join(root, "zygote-%d.sock" % os.getpid())
     pid = os.fork()
     if pid == 0:
         try:
@@ -98,6 +127,8 @@ def start_zygote():
         print("BROKEN-HARNESS: zygote did not start")
         sys.exit(2)
     os.environ[_ENV] = path
+    _OWN["pid"] = os.getpid()
+    _OWN["path"] = path
     import atexit
 
     atexit.register(lambda: _kill(pid))
@@ -116,7 +147,7 @@ class ChildError(Exception):
 
 def in_child(mod: str, fn: str, *args, cwd: str | None = None):
     """Run mod.fn(*args) in a fresh child of the pristine zygote; return its (picklable) result."""
-    path = os.environ.get(_ENV)
+    path = _OWN.get("path") if _OWN.get("pid") == os.getpid() else None
     if not path:
         # replay mode / no zygote: fork from a fresh interpreter instead
         return _in_subprocess(mod, fn, args, cwd)
